@@ -149,6 +149,8 @@ template <class C> void Exec<C>::exec_parse(int i, const Op& op, OpOut& o) {
             first = texts[(size_t)tid].base;
             int w = (op.window < 0 || op.window > texts[(size_t)tid].win) ? texts[(size_t)tid].win : op.window;
             afterLast = first + w;
+            // (placement 4: the range starts `trail` characters into the shared buffer - two URIs over overlapping, not nested-from-the-start, ranges)
+            if (op.placement == 4 && op.trail > 0 && op.trail <= w) first += op.trail;
         } else {
             tid = make_text(op.text, op.window, op.placement, op.trail, need_nul);
             first = texts[(size_t)tid].base; afterLast = first + texts[(size_t)tid].win;
@@ -401,7 +403,7 @@ template <class C> void Exec<C>::exec_tostring(int i, const Op& op, OpOut& o) {
             int n = 0;
             // every capacity; for long texts (rare) both ends and 64 seeded capacities in between
             std::vector<int> caps;
-            if (req <= 256) { for (int cap = -2; cap <= req + 3; cap++) caps.push_back(cap); if ((plan.run_seed >> 11) % 8 == 0) { caps.push_back(0x7fffffff); caps.push_back(1 << 29); caps.push_back((1 << 30) + 7); caps.push_back(65536); } }
+            if (req <= 256) { for (int cap = -2; cap <= req + 3; cap++) caps.push_back(cap); if ((plan.run_seed >> 11) % 8 == 0) { caps.push_back(0x7fffffff); caps.push_back(1 << 29); caps.push_back((1 << 30) + 7); caps.push_back(65536); caps.push_back(-0x7fffffff - 1); caps.push_back(-1000); } }
             else {
                 std::set<int> cs; Rng cr(plan.run_seed ^ (unsigned long long)(i * 7919 + 13));
                 for (int k = -2; k <= 10; k++) cs.insert(k);
